@@ -107,7 +107,7 @@ def _gen_build(r, g, class_default):
                     v = _sv(g.tok(t))
                 st['items'].append([dk, v])
     fams = [r.choice(['call', 'call', 'bind', 'xrefcall', 'eval', 'fstr', 'import', 'rec', 'boxinc', 'chain', 'evalprobe',
-                      'evalattr', 'aynscfg', 'reclist', 'recxref', 'inclist', 'boxwhole', 'boxwhole', 'nestbox', 'nestbox', 'pathcall', 'prevmove', 'aliasval'])
+                      'evalattr', 'aynscfg', 'reclist', 'recxref', 'inclist', 'boxwhole', 'boxwhole', 'nestbox', 'nestbox', 'pathcall', 'prevmove', 'aliasval', 'latefn'])
             for _ in range(r.randrange(1, 5))]
     # a mapping-valued data entry whose members have their own taint (read member-wise by evaluated code)
     box_key = None
@@ -245,6 +245,10 @@ def _gen_build(r, g, class_default):
                     n2 = '~/' + f2[len('/home/u/'):]
                 g.files[f2] = '{c2: ' + _call(g, 'U', 'call') + '}\n'
                 v = f'!include [{f1}, !unsafe {n2}]'
+                if r.random() < 0.25:
+                    # the name is written (with a marker of its own) below an !unsafe mapping and used here through its alias
+                    st['items'].append([key + 'n', '!unsafe {p: &anc' + key + ' ' + r.choice(['!weak ', '!force ', '']) + n2 + '}'])
+                    v = f'!include [{f1}, *anc{key}]'
             elif fam == 'fstr':
                 c = r.randrange(4)
                 if c == 0:
@@ -281,6 +285,10 @@ def _gen_build(r, g, class_default):
                 else:
                     st['items'].append([key + 'a', f'*anc{key}'])
                     v = '!eval ' + emit.scalar_text(f"rec('{g.tok(t)}', {key}a)")
+            elif fam == 'latefn':
+                # evaluated code that creates a function; the client calls it after the build, and only then does it read the entry
+                own = g.tok(t)
+                v = '!eval ' + emit.scalar_text(r.choice([f"lambda: rec('{own}', {dk})", f"lambda: rec('{own}', ayns.cfg.{dk})"]))
             elif fam == 'pathcall':
                 # a !path assembled from components of mixed taint, consumed by a call or by evaluated code
                 comps = [_sv(g.tok(t)), ('!unsafe ' + _sv(g.tok('U'))) if r.random() < 0.6 else _sv(g.tok(t)), _sv(g.tok(t))]
@@ -499,6 +507,7 @@ def _unsafe_leaves(root):
 
 def _client(th, out):
     import pickle
+    import types
     from awesomeyaml import Builder, Config, EvalContext, errors
     from awesomeyaml import yaml as ayaml
     tname = None
@@ -557,6 +566,14 @@ def _client(th, out):
                     cfg = Config(root)
                 rec['status'] = 'ok'
                 rec['out_tokens'] = _executed_outputs(cfg, [], root if route == 'evalctx' else None)
+                for v_ in list(cfg.values()):
+                    if isinstance(v_, types.FunctionType):
+                        # functions made by evaluated code are called now, after the build (their events are part of this build's log)
+                        try:
+                            v_()
+                            rec['late_calls'] = rec.get('late_calls', 0) + 1
+                        except Exception as e:
+                            rec.setdefault('late_errors', []).append(type(e).__name__)
                 rec['all_tokens'] = sorted(set(_tokens_in(observe.plain(dict(cfg)) if False else _plainish(cfg), [])))
             except Exception as e:
                 rec['status'] = 'error'
